@@ -1,4 +1,4 @@
 From Coq Require Import ExtrOcamlBasic.
-From Mpc Require Import Base.Sx Proto.RunC02.
-Definition run := run_c02.
+From Mpc Require Import Base.Sx Proto.RunC02Live.
+Definition run := run_c02x.
 Extraction "model.ml" run.
